@@ -1,10 +1,12 @@
 import PpciVerif.Spec.IRRun
 import PpciVerif.Model.Opt
+import PpciVerif.Model.OptCheck
 /-! Line-protocol engine of `Drivers/C02.lean` (kept in the library so the driver elaborates instantly).
 
 All operations of `Spec.IRRun` (load / config / wf / run / env / show / roundtrip) on the current module, plus
 
   keep                 remember the current module as "before"                       -> ok
+  check align          validator `Model.OptCheck.checkAlign before current`                -> ok 1 | ok 0
   pass <name>          model pass (`Model.Opt.passByName`) applied to every function of the current module
                        -> ok <sexpr of the result> | err <PythonExceptionName> | bad-op
 -/
@@ -19,6 +21,13 @@ def step (st : St) (line : String) : St × String :=
   let l := line.trimAscii.toString
   match words l, st.ir.mod with
   | ["keep"], some m => ({ st with before := some m }, "ok")
+  | ["ssa"], some m =>
+    (st, "ok " ++ " ".intercalate (m.funcs.map fun f =>
+      f.name ++ "=" ++ (if Model.OptCheck.ssaCheck f (Model.OptCheck.computeDoms f) then "1" else "0")))
+  | ["check", "align"], some m =>
+    match st.before with
+    | some b => (st, if Model.OptCheck.checkAlign b m then "ok 1" else "ok 0")
+    | none => (st, "bad-op")
   | ["pass", name], some m =>
     match Model.Opt.passByName name with
     | none => (st, "bad-op")
